@@ -1214,11 +1214,46 @@ func (in *Interp) callFuncLit(lit *ast.FuncLit, args []Value) []Value {
 
 // callFuncVal calls a function value with the arguments of call expression x.
 func (in *Interp) callFuncVal(fv *FuncVal, x *ast.CallExpr) []Value {
+	if fv.MethodExpr != nil {
+		// T.M(recv, args…): the same as recv.M(args…)
+		if len(x.Args) == 0 {
+			unsupported("method expression called without a receiver")
+		}
+		fn := fv.MethodExpr
+		shifted := &ast.CallExpr{Fun: x.Fun, Lparen: x.Lparen, Args: x.Args[1:], Ellipsis: x.Ellipsis, Rparen: x.Rparen}
+		rv := in.expr(x.Args[0])
+		if o, ok := rv.(*Opaque); ok {
+			return in.opaqueMethod(o, fn.Name(), shifted)
+		}
+		sig := fn.Type().(*types.Signature)
+		if fn.Pkg() == nil || !strings.HasPrefix(fn.Pkg().Path(), "github.com/brocaar/lorawan") {
+			return in.foreign(fn, rv, shifted)
+		}
+		if iface, isI := rv.(*Iface); isI {
+			dynT, dyn := in.dynamic(iface, x)
+			if dynT == nil {
+				in.crash(x, "method call on a nil interface")
+			}
+			obj, _, _ := types.LookupFieldOrMethod(dynT, true, fn.Pkg(), fn.Name())
+			cf, ok := obj.(*types.Func)
+			if !ok {
+				unsupported("dynamic type %s has no method %s", dynT, fn.Name())
+			}
+			if p, ok := dyn.(*Ptr); ok {
+				return in.callFunc(cf, p.To, nil, in.argsPacked(shifted, cf.Type().(*types.Signature)))
+			}
+			return in.callFunc(cf, nil, dyn, in.argsPacked(shifted, cf.Type().(*types.Signature)))
+		}
+		if p, ok := rv.(*Ptr); ok {
+			return in.callFunc(fn, p.To, nil, in.argsPacked(shifted, sig))
+		}
+		return in.callFunc(fn, nil, rv, in.argsPacked(shifted, sig))
+	}
 	if fv.Decl != nil {
-		return in.callFunc(fv.Decl, nil, nil, in.args(x, fv.Decl.Type().(*types.Signature)))
+		return in.callFunc(fv.Decl, nil, nil, in.argsPacked(x, fv.Decl.Type().(*types.Signature)))
 	}
 	sig, _ := fv.Pkg.TypesInfo.TypeOf(fv.Lit).(*types.Signature)
-	return in.callLit(fv.Lit, fv.Pkg, fv.Env, "func literal", in.args(x, sig))
+	return in.callLit(fv.Lit, fv.Pkg, fv.Env, "func literal", in.argsPacked(x, sig))
 }
 
 // callLit interprets a function literal in the environment it captured (cells shared: capture by reference).
